@@ -24,7 +24,8 @@ let props : (string * prop) list = [
   "C04", { tag = "wf"; check = P_c04.check_wf; cross_header = ""; cross_footer = ""; nontrivial = P_c04.nontrivial_other };
   "C04", { tag = "alloc"; check = P_c04.check_alloc; cross_header = ""; cross_footer = ""; nontrivial = P_c04.nontrivial_other };
   "C04", { tag = "c20"; check = (fun f -> (fst (P_c20.check f), None)); cross_header = ""; cross_footer = ""; nontrivial = P_c20.nontrivial };
-  "C11", { tag = "sess"; check = P_c11.check; cross_header = ""; cross_footer = ""; nontrivial = P_c11.nontrivial };
+  "C11", { tag = "sess"; check = P_sess.check_C11; cross_header = ""; cross_footer = "";
+           nontrivial = (fun f -> if field_opt "tlsobs" f <> None then P_c11.nontrivial f else P_sess.nontrivial f) };
   "C09", sess_prop P_sess.check_C09 P_sess.nontrivial;
   "C14", { tag = "c14"; check = P_c14.check; cross_header = P_c14.cross_header; cross_footer = P_c14.cross_footer; nontrivial = P_c14.nontrivial };
   "C03", sess_prop P_sess.check_C03 P_sess.nontrivial;
